@@ -239,16 +239,16 @@ theorem pre_ext {s : S} (h : Pre s) (A' : List Actor) (hext : Ext s.actors A') :
     rw [count_call_extend]
     exact h.nd a x p hx
 
-theorem resolve_inv {s : S} (h : Pre s) : Inv (resolve s) := by
-  have hext : Ext s.actors (resolve s).actors := deliverForwards_ext _ _ _
-  have hcalls : ∀ (p : Nat) (c' : Call), (resolve s).calls[p]? = some c' →
+theorem resolveLocal_inv {s : S} (h : Pre s) : Inv (resolveLocal s) := by
+  have hext : Ext s.actors (resolveLocal s).actors := deliverForwards_ext _ _ _
+  have hcalls : ∀ (p : Nat) (c' : Call), (resolveLocal s).calls[p]? = some c' →
       ∃ c, s.calls[p]? = some c ∧ c' = resolveCall s.now c := by
     intro p c' hc'
-    simp only [resolve, List.getElem?_map] at hc'
+    simp only [resolveLocal, List.getElem?_map] at hc'
     cases hs : s.calls[p]? with
     | none => rw [hs] at hc'; cases hc'
     | some c => rw [hs] at hc'; exact ⟨c, rfl, by simpa using hc'.symm⟩
-  have hnow : (resolve s).now = s.now := rfl
+  have hnow : (resolveLocal s).now = s.now := rfl
   refine ⟨⟨?_, ?_, ?_, ?_⟩, ?_⟩
   · intro p c' hc'
     obtain ⟨c, hc, rfl⟩ := hcalls p c' hc'
@@ -263,7 +263,7 @@ theorem resolve_inv {s : S} (h : Pre s) : Inv (resolve s) := by
     obtain ⟨x, e, hx, rfl⟩ := ext_alive hext hx'
     obtain ⟨c, hc, hl⟩ := h.mb a x hx p (mem_call_extend.mp hp)
     refine ⟨resolveCall s.now c, ?_, by rw [resolveCall_loc]; exact hl⟩
-    simp [resolve, List.getElem?_map, hc]
+    simp [resolveLocal, List.getElem?_map, hc]
   · intro a x' p hx'
     obtain ⟨x, e, hx, rfl⟩ := ext_alive hext hx'
     rw [count_call_extend]
@@ -748,6 +748,9 @@ end Rpc
 
 namespace Rpc
 
+theorem pre_sent {s : S} (h : Pre s) (x : List (Nat × Nat)) : Pre { s with sent := x } :=
+  ⟨h.pre, h.loc, h.mb, h.nd⟩
+
 theorem locOk_loc_of_alive (A : List Actor) (U : List Sup) (c : Call) (l : Loc)
     (hl : match l with
       | .mailbox a => (match A[a]? with | some x => x.alive | none => false) = true
@@ -817,7 +820,7 @@ theorem pre_handle {s : S} (h : Pre s) (a : Nat) (act : Act) : Pre (handleCore s
             simp [setActor, List.getElem?_modify_eq, ha, Functor.map, halive]
           unfold applyAct
           cases act with
-          | reply v => exact pre_setLoc h1 p c hc' hloose _ hnot (locOk_loc_of_alive _ _ _ _ trivial)
+          | reply v => exact pre_sent (pre_setLoc h1 p c hc' hloose _ hnot (locOk_loc_of_alive _ _ _ _ trivial)) _
           | drop => exact pre_setLoc h1 p c hc' hloose _ hnot (locOk_loc_of_alive _ _ _ _ trivial)
           | keep => exact pre_setLoc h1 p c hc' hloose _ hnot (locOk_loc_of_alive _ _ _ _ halive')
           | detach => exact pre_setLoc h1 p c hc' hloose _ hnot (locOk_loc_of_alive _ _ _ _ trivial)
@@ -841,7 +844,7 @@ theorem pre_later {s : S} (h : Pre s) (p : Nat) (act : Act) : Pre (stepCore s (.
       have hloose : looseRes c = true := looseRes_of_loc_live h hc (by simp [hl])
       have hn := fun b y => hnot (by simp [hl]) b y
       cases act with
-      | reply v => exact pre_setLoc h p c hc hloose _ hn (locOk_loc_of_alive _ _ _ _ trivial)
+      | reply v => exact pre_sent (pre_setLoc h p c hc hloose _ hn (locOk_loc_of_alive _ _ _ _ trivial)) _
       | drop => exact pre_setLoc h p c hc hloose _ hn (locOk_loc_of_alive _ _ _ _ trivial)
       | keep => exact h
       | detach => exact h
@@ -849,7 +852,7 @@ theorem pre_later {s : S} (h : Pre s) (p : Nat) (act : Act) : Pre (stepCore s (.
       have hloose : looseRes c = true := looseRes_of_loc_live h hc (by simp [hl])
       have hn := fun b y => hnot (by simp [hl]) b y
       cases act with
-      | reply v => exact pre_setLoc h p c hc hloose _ hn (locOk_loc_of_alive _ _ _ _ trivial)
+      | reply v => exact pre_sent (pre_setLoc h p c hc hloose _ hn (locOk_loc_of_alive _ _ _ _ trivial)) _
       | drop => exact pre_setLoc h p c hc hloose _ hn (locOk_loc_of_alive _ _ _ _ trivial)
       | keep => exact h
       | detach => exact h
@@ -860,7 +863,7 @@ theorem pre_later {s : S} (h : Pre s) (p : Nat) (act : Act) : Pre (stepCore s (.
       | reply v =>
         simp only
         split
-        · exact pre_setLoc h p c hc hloose _ hn (locOk_loc_of_alive _ _ _ _ trivial)
+        · exact pre_sent (pre_setLoc h p c hc hloose _ hn (locOk_loc_of_alive _ _ _ _ trivial)) _
         · exact h
       | drop =>
         simp only
@@ -894,7 +897,7 @@ theorem pre_sendCall {s : S} (h : Pre s) (a : Nat) (t g f : Option Nat) : Pre (s
       simp only [List.getElem?_append] at hq
       split at hq
       · exact h.pre q c hq
-      · cases hq' : ([({ callee := a, deadline := Option.map (fun x => x + s.now) t, loc := Loc.mailbox a, res := none, group := g, forward := f } : Call)])[q - s.calls.length]? with
+      · cases hq' : ([({ callee := a, deadline := Option.map (fun x => x + s.now) t, loc := Loc.mailbox a, res := none, group := g, forward := f, rx := s.calls.length } : Call)])[q - s.calls.length]? with
         | none => rw [hq'] at hq; cases hq
         | some c' =>
           rw [hq'] at hq; cases hq
@@ -911,7 +914,7 @@ theorem pre_sendCall {s : S} (h : Pre s) (a : Nat) (t g f : Option Nat) : Pre (s
         | some y => by_cases hab : a = b <;> simp [hab]
       split at hq
       · exact locOk_congr hal (h.loc q c hq)
-      · cases hq' : ([({ callee := a, deadline := Option.map (fun x => x + s.now) t, loc := Loc.mailbox a, res := none, group := g, forward := f } : Call)])[q - s.calls.length]? with
+      · cases hq' : ([({ callee := a, deadline := Option.map (fun x => x + s.now) t, loc := Loc.mailbox a, res := none, group := g, forward := f, rx := s.calls.length } : Call)])[q - s.calls.length]? with
         | none => rw [hq'] at hq; cases hq
         | some c' =>
           rw [hq'] at hq; cases hq
@@ -934,7 +937,7 @@ theorem pre_sendCall {s : S} (h : Pre s) (a : Nat) (t g f : Option Nat) : Pre (s
             exact ⟨c0, by rw [List.getElem?_append_left (hlt q c0 hc0)]; exact hc0, hl0⟩
           · cases hqm
             refine ⟨{ callee := a, deadline := Option.map (fun x => x + s.now) t, loc := Loc.mailbox a,
-                      res := none, group := g, forward := f }, ?_, rfl⟩
+                      res := none, group := g, forward := f, rx := s.calls.length }, ?_, rfl⟩
             rw [List.getElem?_append_right (Nat.le_refl _)]; simp
         · simp only [hab, if_false] at hy; subst hy
           obtain ⟨c0, hc0, hl0⟩ := h.mb b y0 hb q hqm
@@ -971,7 +974,7 @@ theorem pre_sendCall {s : S} (h : Pre s) (a : Nat) (t g f : Option Nat) : Pre (s
       simp only [List.getElem?_append] at hq
       split at hq
       · exact h.pre q c hq
-      · cases hq' : ([({ callee := a, deadline := Option.map (fun x => x + s.now) t, loc := Loc.dropped, res := some Res.sendErr, group := g, forward := f } : Call)])[q - s.calls.length]? with
+      · cases hq' : ([({ callee := a, deadline := Option.map (fun x => x + s.now) t, loc := Loc.dropped, res := some Res.sendErr, group := g, forward := f, rx := s.calls.length } : Call)])[q - s.calls.length]? with
         | none => rw [hq'] at hq; cases hq
         | some c' =>
           rw [hq'] at hq; cases hq
@@ -981,7 +984,7 @@ theorem pre_sendCall {s : S} (h : Pre s) (a : Nat) (t g f : Option Nat) : Pre (s
       simp only [List.getElem?_append] at hq
       split at hq
       · exact h.loc q c hq
-      · cases hq' : ([({ callee := a, deadline := Option.map (fun x => x + s.now) t, loc := Loc.dropped, res := some Res.sendErr, group := g, forward := f } : Call)])[q - s.calls.length]? with
+      · cases hq' : ([({ callee := a, deadline := Option.map (fun x => x + s.now) t, loc := Loc.dropped, res := some Res.sendErr, group := g, forward := f, rx := s.calls.length } : Call)])[q - s.calls.length]? with
         | none => rw [hq'] at hq; cases hq
         | some c' =>
           rw [hq'] at hq; cases hq
@@ -1140,18 +1143,6 @@ theorem pre_drainExits {s : S} (h : Pre s) : Pre (drainExits s) := by
       · exact pre_stop h a
       · exact h
 
-theorem inv_step {s : S} (h : Inv s) (op : Op) : Inv (step s op) :=
-  resolve_inv (pre_drainExits (pre_stepCore h.toPre op))
-
-theorem inv_run (ops : List Op) : Inv (run ops) := by
-  unfold run
-  generalize hs : init = s
-  have h : Inv s := hs ▸ inv_init
-  clear hs
-  induction ops generalizing s with
-  | nil => exact h
-  | cons op rest ih => exact ih _ (inv_step h op)
-
 theorem ok_of_inv {s : S} (h : Inv s) : ok s = true := by
   unfold ok
   rw [List.all_eq_true]
@@ -1221,9 +1212,9 @@ theorem resolveCall_callee (now : Nat) (c : Call) : (resolveCall now c).callee =
   unfold resolveCall
   repeat (first | rfl | split)
 
-theorem own_resolve {s : S} (h : Own s) : Own (resolve s) := by
+theorem own_resolveLocal {s : S} (h : Own s) : Own (resolveLocal s) := by
   intro p c' hc' a hl
-  simp only [resolve, List.getElem?_map] at hc'
+  simp only [resolveLocal, List.getElem?_map] at hc'
   cases hs : s.calls[p]? with
   | none => rw [hs] at hc'; cases hc'
   | some c =>
@@ -1478,7 +1469,7 @@ theorem own_handle {s : S} (hp : Pre s) (h : Own s) (a : Nat) (act : Act) : Own 
           have hcal : c.callee = a := h p c hc a (Or.inl hlc)
           unfold applyAct
           cases act with
-          | reply v => exact own_setCall h1 p _ (fun _ _ b hb => absurd hb (not_ownedBy_replied v b))
+          | reply v => exact own_calls_eq (own_setCall h1 p _ (fun _ _ b hb => absurd hb (not_ownedBy_replied v b))) rfl
           | drop => exact own_setCall h1 p _ (fun _ _ b hb => absurd hb (not_ownedBy_dropped b))
           | detach => exact own_setCall h1 p _ (fun _ _ b hb => absurd hb (not_ownedBy_detached b))
           | keep =>
@@ -1509,11 +1500,11 @@ theorem own_stepCore {s : S} (hp : Pre s) (h : Own s) (op : Op) : Own (stepCore 
       simp only
       cases c.loc <;> cases act <;> simp only <;> first
         | exact h
-        | exact own_setCall h p _ (fun _ _ b hb => absurd hb (not_ownedBy_replied _ b))
+        | exact own_calls_eq (own_setCall h p _ (fun _ _ b hb => absurd hb (not_ownedBy_replied _ b))) rfl
         | exact own_setCall h p _ (fun _ _ b hb => absurd hb (not_ownedBy_dropped b))
         | (split
            · first
-             | exact own_setCall h p _ (fun _ _ b hb => absurd hb (not_ownedBy_replied _ b))
+             | exact own_calls_eq (own_setCall h p _ (fun _ _ b hb => absurd hb (not_ownedBy_replied _ b))) rfl
              | exact own_setCall h p _ (fun _ _ b hb => absurd hb (not_ownedBy_dropped b))
            · exact h)
   | exit a => exact own_exit h a
@@ -1555,14 +1546,438 @@ theorem own_stepCore {s : S} (hp : Pre s) (h : Own s) (op : Op) : Own (stepCore 
   | supexit u => exact own_supExit h u
   | cast a v => exact own_calls_eq h rfl
 
+end Rpc
+
+/-! ### wiring: every caller reads the port it created, and a port carries at most the one value
+that was sent on it (`S.sent` = ghost history of all `RpcReplyPort::send`s) -/
+
+namespace Rpc
+
+structure Wire (s : S) : Prop where
+  /-- the receiving half a caller awaits belongs to the port it sent (`rx = p`) -/
+  rx : ∀ (p : Nat) (c : Call), s.calls[p]? = some c → c.rx = p
+  /-- the channel of port `p` holds `v` iff `send(v)` was performed on port `p` -/
+  sent : ∀ (p : Nat) (c : Call), s.calls[p]? = some c → ∀ v : Nat, ((p, v) ∈ s.sent ↔ c.loc = .replied v)
+  bound : ∀ (p v : Nat), (p, v) ∈ s.sent → p < s.calls.length
+
+theorem wire_init : Wire init := by
+  refine ⟨?_, ?_, ?_⟩ <;> intros <;> simp_all [init]
+
+theorem wire_frame {s s' : S} (h : Wire s) (he : s'.calls = s.calls) (hs : s'.sent = s.sent) : Wire s' := by
+  refine ⟨?_, ?_, ?_⟩
+  · intro p c hc; rw [he] at hc; exact h.rx p c hc
+  · intro p c hc v; rw [he] at hc; rw [hs]; exact h.sent p c hc v
+  · intro p v hv; rw [hs] at hv; rw [he]; exact h.bound p v hv
+
+theorem wire_map {s s' : S} (h : Wire s) (f : Call → Call) (he : s'.calls = s.calls.map f)
+    (hs : s'.sent = s.sent) (hrx : ∀ c, (f c).rx = c.rx)
+    (hloc : ∀ c v, (f c).loc = .replied v ↔ c.loc = .replied v) : Wire s' := by
+  refine ⟨?_, ?_, ?_⟩
+  · intro p c' hc'
+    rw [he, List.getElem?_map] at hc'
+    cases hq : s.calls[p]? with
+    | none => rw [hq] at hc'; cases hc'
+    | some c =>
+      rw [hq] at hc'; simp only [Option.map_some, Option.some.injEq] at hc'; subst hc'
+      rw [hrx]; exact h.rx p c hq
+  · intro p c' hc' v
+    rw [he, List.getElem?_map] at hc'
+    cases hq : s.calls[p]? with
+    | none => rw [hq] at hc'; cases hc'
+    | some c =>
+      rw [hq] at hc'; simp only [Option.map_some, Option.some.injEq] at hc'; subst hc'
+      rw [hs, hloc]; exact h.sent p c hq v
+  · intro p v hv
+    rw [hs] at hv; rw [he, List.length_map]; exact h.bound p v hv
+
+/-- moving a port that carries no value to a place that is not "replied" -/
+theorem wire_setCall {s : S} (h : Wire s) (p : Nat) (l : Loc) (hl : ∀ v, l ≠ .replied v)
+    (hold : ∀ c, s.calls[p]? = some c → ∀ v, c.loc ≠ .replied v) :
+    Wire (setCall s p (fun c => { c with loc := l })) := by
+  have hget : ∀ q : Nat, (setCall s p (fun c => { c with loc := l })).calls[q]? =
+      (s.calls[q]?).map (fun c => if p = q then { c with loc := l } else c) := by
+    intro q; simp [setCall, List.getElem?_modify, Functor.map]
+  refine ⟨?_, ?_, ?_⟩
+  · intro q c' hc'
+    rw [hget] at hc'
+    cases hq : s.calls[q]? with
+    | none => rw [hq] at hc'; cases hc'
+    | some c =>
+      rw [hq] at hc'; simp only [Option.map_some, Option.some.injEq] at hc'; subst hc'
+      split <;> exact h.rx q c hq
+  · intro q c' hc' v
+    rw [hget] at hc'
+    cases hq : s.calls[q]? with
+    | none => rw [hq] at hc'; cases hc'
+    | some c =>
+      rw [hq] at hc'; simp only [Option.map_some, Option.some.injEq] at hc'; subst hc'
+      show (q, v) ∈ s.sent ↔ _
+      by_cases hpq : p = q
+      · subst hpq
+        simp only [if_true]
+        rw [h.sent p c hq v]
+        constructor
+        · intro hh; exact absurd hh (hold c hq v)
+        · intro hh; exact absurd hh (hl v)
+      · simp only [hpq, if_false]; exact h.sent q c hq v
+  · intro q v hv
+    have := h.bound q v hv
+    simpa [setCall] using this
+
+/-- `send(v)` on a port that exists and carries no value yet -/
+theorem wire_replyOn {s : S} (h : Wire s) (p v : Nat) (c : Call) (hc : s.calls[p]? = some c)
+    (hold : ∀ w, c.loc ≠ .replied w) : Wire (replyOn s p v) := by
+  have hget : ∀ q : Nat, (replyOn s p v).calls[q]? =
+      (s.calls[q]?).map (fun c => if p = q then { c with loc := .replied v } else c) := by
+    intro q; simp [replyOn, setCall, List.getElem?_modify, Functor.map]
+  have hsent : (replyOn s p v).sent = s.sent ++ [(p, v)] := rfl
+  refine ⟨?_, ?_, ?_⟩
+  · intro q c' hc'
+    rw [hget] at hc'
+    cases hq : s.calls[q]? with
+    | none => rw [hq] at hc'; cases hc'
+    | some c0 =>
+      rw [hq] at hc'; simp only [Option.map_some, Option.some.injEq] at hc'; subst hc'
+      split <;> exact h.rx q c0 hq
+  · intro q c' hc' w
+    rw [hget] at hc'
+    cases hq : s.calls[q]? with
+    | none => rw [hq] at hc'; cases hc'
+    | some c0 =>
+      rw [hq] at hc'; simp only [Option.map_some, Option.some.injEq] at hc'; subst hc'
+      rw [hsent, List.mem_append, List.mem_singleton]
+      by_cases hpq : p = q
+      · subst hpq
+        rw [hc] at hq; cases hq
+        simp only [if_true, Loc.replied.injEq, Prod.mk.injEq, true_and]
+        constructor
+        · rintro (hh | hh)
+          · exact absurd ((h.sent p c hc w).mp hh) (hold w)
+          · exact hh.symm
+        · intro hh; exact Or.inr hh.symm
+      · simp only [hpq, if_false, Prod.mk.injEq]
+        rw [← h.sent q c0 hq w]
+        constructor
+        · rintro (hh | hh)
+          · exact hh
+          · exact absurd hh.1.symm hpq
+        · intro hh; exact Or.inl hh
+  · intro q w hw
+    rw [hsent, List.mem_append, List.mem_singleton] at hw
+    have hlen : (replyOn s p v).calls.length = s.calls.length := by simp [replyOn, setCall]
+    rw [hlen]
+    rcases hw with hw | hw
+    · exact h.bound q w hw
+    · cases hw; exact (List.getElem?_eq_some_iff.mp hc).1
+
+/-- a fresh call record: its port id is its index, its receiver is its own -/
+theorem wire_append {s s' : S} (h : Wire s) (c : Call) (he : s'.calls = s.calls ++ [c]) (hs : s'.sent = s.sent)
+    (hrx : c.rx = s.calls.length) (hl : ∀ v, c.loc ≠ .replied v) : Wire s' := by
+  refine ⟨?_, ?_, ?_⟩
+  · intro p c' hc'
+    rw [he, List.getElem?_append] at hc'
+    split at hc'
+    · exact h.rx p c' hc'
+    · rename_i hlt
+      have := List.mem_of_getElem? hc'
+      simp only [List.mem_singleton] at this; subst this
+      have hp : p - s.calls.length < 1 := by
+        have := (List.getElem?_eq_some_iff.mp hc').1; simpa using this
+      omega
+  · intro p c' hc' v
+    rw [hs]
+    rw [he, List.getElem?_append] at hc'
+    split at hc'
+    · exact h.sent p c' hc' v
+    · rename_i hlt
+      have := List.mem_of_getElem? hc'
+      simp only [List.mem_singleton] at this; subst this
+      constructor
+      · intro hv; exact absurd (h.bound p v hv) hlt
+      · intro hv; exact absurd hv (hl v)
+  · intro p v hv
+    rw [hs] at hv
+    have := h.bound p v hv
+    rw [he, List.length_append]; omega
+
+theorem dropPortsOf_rx (a : Nat) (c : Call) : (dropPortsOf a c).rx = c.rx := by
+  unfold dropPortsOf; repeat (first | rfl | split)
+theorem dropPortsOf_replied (a : Nat) (c : Call) (v : Nat) :
+    (dropPortsOf a c).loc = .replied v ↔ c.loc = .replied v := by
+  unfold dropPortsOf
+  cases h : c.loc <;> simp only [h] <;> (try split) <;> simp_all
+theorem toEvent_rx (a : Nat) (c : Call) : (toEvent a c).rx = c.rx := by
+  unfold toEvent; repeat (first | rfl | split)
+theorem toEvent_replied (a : Nat) (c : Call) (v : Nat) :
+    (toEvent a c).loc = .replied v ↔ c.loc = .replied v := by
+  unfold toEvent
+  cases h : c.loc <;> simp only [h] <;> (try split) <;> simp_all
+theorem dropOrphan_rx (U : List Sup) (c : Call) : (dropOrphan U c).rx = c.rx := by
+  unfold dropOrphan; repeat (first | rfl | split)
+theorem dropOrphan_replied (U : List Sup) (c : Call) (v : Nat) :
+    (dropOrphan U c).loc = .replied v ↔ c.loc = .replied v := by
+  unfold dropOrphan
+  cases h : c.loc <;> simp only [h] <;> (try split) <;> simp_all
+theorem resolveCall_rx (now : Nat) (c : Call) : (resolveCall now c).rx = c.rx := by
+  unfold resolveCall; repeat (first | rfl | split)
+
+theorem wire_exit {s : S} (h : Wire s) (a : Nat) : Wire (exitActor s a) := by
+  unfold exitActor
+  cases s.actors[a]? with
+  | none => exact h
+  | some x =>
+    simp only
+    split
+    · exact wire_map h (dropPortsOf a) rfl rfl (dropPortsOf_rx a) (dropPortsOf_replied a)
+    · exact h
+
+theorem wire_stop {s : S} (h : Wire s) (a : Nat) : Wire (stopActor s a) := by
+  unfold stopActor
+  cases s.actors[a]? with
+  | none => exact h
+  | some x =>
+    simp only
+    split
+    · cases x.sup with
+      | none => exact wire_exit h a
+      | some u =>
+        simp only
+        split
+        · apply wire_exit
+          exact wire_map h (toEvent a) rfl rfl (toEvent_rx a) (toEvent_replied a)
+        · exact wire_exit h a
+    · exact h
+
+theorem wire_sweep {s : S} (h : Wire s) (U : List Sup) : Wire (sweep { s with sups := U }) :=
+  wire_map h (dropOrphan U) rfl rfl (dropOrphan_rx U) (dropOrphan_replied U)
+
+theorem wire_killChildren {s : S} (h : Wire s) (u : Nat) : Wire (killChildren s u) := by
+  unfold killChildren
+  generalize List.range s.actors.length = l
+  induction l generalizing s with
+  | nil => exact h
+  | cons a rest ih =>
+    simp only [List.foldl_cons]
+    apply ih
+    cases s.actors[a]? with
+    | none => exact h
+    | some x =>
+      simp only
+      split
+      · exact wire_exit h a
+      · exact h
+
+theorem wire_drainExits {s : S} (h : Wire s) : Wire (drainExits s) := by
+  unfold drainExits
+  generalize List.range s.actors.length = l
+  induction l generalizing s with
+  | nil => exact h
+  | cons a rest ih =>
+    simp only [List.foldl_cons]
+    apply ih
+    cases s.actors[a]? with
+    | none => exact h
+    | some x =>
+      simp only
+      split
+      · exact wire_stop h a
+      · exact h
+
+theorem wire_sendCall {s : S} (h : Wire s) (a : Nat) (t g f : Option Nat) : Wire (sendCall s a t g f).1 := by
+  unfold sendCall
+  simp only
+  split
+  · exact wire_append h _ rfl rfl rfl (by intro v hv; cases hv)
+  · exact wire_append h _ rfl rfl rfl (by intro v hv; cases hv)
+
+theorem wire_sendMulti {s : S} (h : Wire s) (g : Nat) (t : Option Nat) (as : List Nat) :
+    Wire (sendMulti s g t as) := by
+  induction as generalizing s with
+  | nil => exact h
+  | cons a rest ih =>
+    simp only [sendMulti]
+    have h1 := wire_sendCall h a t (some g) none
+    split
+    · exact ih h1
+    · exact wire_map h1 _ rfl rfl (fun c => by split <;> rfl) (fun c v => by split <;> exact Iff.rfl)
+
+theorem wire_handle {s : S} (hp : Pre s) (h : Wire s) (a : Nat) (act : Act) : Wire (handleCore s a act) := by
+  unfold handleCore
+  cases ha : s.actors[a]? with
+  | none => exact h
+  | some x =>
+    simp only
+    split
+    · exact h
+    · cases hm : x.mailbox with
+      | nil => simp only; split; exact wire_stop h a; exact h
+      | cons it rest =>
+        cases it with
+        | fwd v => exact wire_frame h rfl rfl
+        | call p =>
+          simp only
+          have h1 : Wire (setActor s a (fun y => { y with mailbox := y.mailbox.tail })) := wire_frame h rfl rfl
+          obtain ⟨c, hc, hlc⟩ := hp.mb a x ha p (by rw [hm]; simp)
+          have hc1 : (setActor s a (fun y => { y with mailbox := y.mailbox.tail })).calls[p]? = some c := hc
+          have hold : ∀ c', (setActor s a (fun y => { y with mailbox := y.mailbox.tail })).calls[p]? = some c' →
+              ∀ w, c'.loc ≠ .replied w := by
+            intro c' hc' w; rw [hc1] at hc'; cases hc'; rw [hlc]; intro hh; cases hh
+          unfold applyAct
+          cases act with
+          | reply v => exact wire_replyOn h1 p v c hc1 (hold c hc1)
+          | drop => exact wire_setCall h1 p _ (by intro v hv; cases hv) hold
+          | keep => exact wire_setCall h1 p _ (by intro v hv; cases hv) hold
+          | detach => exact wire_setCall h1 p _ (by intro v hv; cases hv) hold
+
+theorem wire_later {s : S} (h : Wire s) (p : Nat) (act : Act) : Wire (stepCore s (.later p act)) := by
+  simp only [stepCore]
+  cases hc : s.calls[p]? with
+  | none => exact h
+  | some c =>
+    simp only
+    have hold : ∀ l : Loc, c.loc = l → (∀ w, l ≠ .replied w) →
+        ∀ c', s.calls[p]? = some c' → ∀ w, c'.loc ≠ .replied w := by
+      intro l hl hne c' hc' w; rw [hc] at hc'; cases hc'; rw [hl]; exact hne w
+    cases hl : c.loc with
+    | mailbox a => cases act <;> exact h
+    | replied v => cases act <;> exact h
+    | dropped => cases act <;> exact h
+    | actor a =>
+      have hne : ∀ w, Loc.actor a ≠ .replied w := by intro w hh; cases hh
+      cases act with
+      | reply v => exact wire_replyOn h p v c hc (by rw [hl]; exact hne)
+      | drop => exact wire_setCall h p _ (by intro v hv; cases hv) (hold _ hl hne)
+      | keep => exact h
+      | detach => exact h
+    | detached =>
+      have hne : ∀ w, Loc.detached ≠ .replied w := by intro w hh; cases hh
+      cases act with
+      | reply v => exact wire_replyOn h p v c hc (by rw [hl]; exact hne)
+      | drop => exact wire_setCall h p _ (by intro v hv; cases hv) (hold _ hl hne)
+      | keep => exact h
+      | detach => exact h
+    | event a =>
+      have hne : ∀ w, Loc.event a ≠ .replied w := by intro w hh; cases hh
+      cases act with
+      | reply v =>
+        simp only
+        split
+        · exact wire_replyOn h p v c hc (by rw [hl]; exact hne)
+        · exact h
+      | drop =>
+        simp only
+        split
+        · exact wire_setCall h p _ (by intro v hv; cases hv) (hold _ hl hne)
+        · exact h
+      | keep => exact h
+      | detach => exact h
+
+theorem wire_stepCore {s : S} (hp : Pre s) (h : Wire s) (op : Op) : Wire (stepCore s op) := by
+  cases op with
+  | spawn => exact wire_frame h rfl rfl
+  | call a t => exact wire_sendCall h a t none none
+  | mcall as t =>
+    simp only [stepCore]
+    exact wire_frame (wire_sendMulti h s.groups t as) rfl rfl
+  | fcall a f t => exact wire_sendCall h a t none (some f)
+  | handle a act => exact wire_handle hp h a act
+  | later p act => exact wire_later h p act
+  | exit a => exact wire_exit h a
+  | stop a act =>
+    simp only [stepCore]
+    exact wire_stop (wire_handle hp h a act) a
+  | drain a => exact wire_frame h rfl rfl
+  | advance d => exact wire_frame h rfl rfl
+  | spawnSup => exact wire_frame h rfl rfl
+  | spawnl u =>
+    simp only [stepCore]
+    split
+    · exact wire_frame h rfl rfl
+    · exact h
+  | suphandle u keep =>
+    simp only [stepCore]
+    cases s.sups[u]? with
+    | none => exact h
+    | some x =>
+      simp only
+      split
+      · exact h
+      · cases x.inbox with
+        | nil => exact h
+        | cons a rest =>
+          simp only
+          split
+          · exact wire_frame h rfl rfl
+          · exact wire_sweep h _
+  | supdrop u a =>
+    simp only [stepCore]
+    cases s.sups[u]? with
+    | none => exact h
+    | some x =>
+      simp only
+      split
+      · exact wire_sweep h _
+      · exact h
+  | supexit u =>
+    simp only [stepCore]
+    unfold supExit
+    cases s.sups[u]? with
+    | none => exact h
+    | some x =>
+      simp only
+      split
+      · exact wire_killChildren (wire_sweep h _) u
+      · exact h
+  | cast a v => exact wire_frame h rfl rfl
+
+theorem wire_resolveLocal {s : S} (h : Wire s) : Wire (resolveLocal s) :=
+  wire_map h (resolveCall s.now) rfl rfl (resolveCall_rx s.now) (fun c v => by rw [resolveCall_loc])
+
+/-- a caller that reads the channel of the port it created sees what its own record says -/
+theorem resolveVia_eq {s : S} (h : Wire s) (c : Call) (hc : c ∈ s.calls) :
+    resolveVia s.now s.calls c = resolveCall s.now c := by
+  obtain ⟨p, hp⟩ := List.mem_iff_getElem?.mp hc
+  have hrx := h.rx p c hp
+  have hpl : portLoc s.calls c.rx = c.loc := by rw [hrx]; simp [portLoc, hp]
+  unfold resolveVia resolveCall
+  rw [hpl]
+
+theorem resolve_eq_local {s : S} (h : Wire s) : resolve s = resolveLocal s := by
+  have : s.calls.map (resolveVia s.now s.calls) = s.calls.map (resolveCall s.now) :=
+    List.map_congr_left (fun c hc => resolveVia_eq h c hc)
+  simp only [resolve, resolveLocal, this]
+
+theorem step_eq_local {s : S} (hp : Pre s) (hw : Wire s) (op : Op) :
+    step s op = resolveLocal (drainExits (stepCore s op)) :=
+  resolve_eq_local (wire_drainExits (wire_stepCore hp hw op))
+
+theorem inv_step {s : S} (h : Inv s) (hw : Wire s) (op : Op) : Inv (step s op) ∧ Wire (step s op) := by
+  rw [step_eq_local h.toPre hw op]
+  exact ⟨resolveLocal_inv (pre_drainExits (pre_stepCore h.toPre op)),
+         wire_resolveLocal (wire_drainExits (wire_stepCore h.toPre hw op))⟩
+
+theorem inv_wire_run (ops : List Op) : Inv (run ops) ∧ Wire (run ops) := by
+  unfold run
+  generalize hs : init = s
+  have h : Inv s ∧ Wire s := hs ▸ ⟨inv_init, wire_init⟩
+  clear hs
+  induction ops generalizing s with
+  | nil => exact h
+  | cons op rest ih => exact ih _ (inv_step h.1 h.2 op)
+
+theorem inv_run (ops : List Op) : Inv (run ops) := (inv_wire_run ops).1
+theorem wire_run (ops : List Op) : Wire (run ops) := (inv_wire_run ops).2
+
 theorem own_run (ops : List Op) : Own (run ops) := by
   unfold run
-  suffices ∀ s, Inv s → Own s → Own (ops.foldl step s) from this init inv_init own_init
+  suffices ∀ s, Inv s → Wire s → Own s → Own (ops.foldl step s) from this init inv_init wire_init own_init
   induction ops with
-  | nil => intro s _ h; exact h
+  | nil => intro s _ _ h; exact h
   | cons op rest ih =>
-    intro s hi ho
-    exact ih (step s op) (inv_step hi op)
-      (own_resolve (own_drainExits (own_stepCore hi.toPre ho op)))
+    intro s hi hw ho
+    have hs := inv_step hi hw op
+    refine ih (step s op) hs.1 hs.2 ?_
+    rw [step_eq_local hi.toPre hw op]
+    exact own_resolveLocal (own_drainExits (own_stepCore hi.toPre ho op))
 
 end Rpc
